@@ -24,8 +24,9 @@
     * `snake_loop_total`, `snake_loop_exit`, `snake_loop_no_yankable` — with the fuel the model
       uses (`len + 1`) the first loop never raises, never runs out of fuel, yields an accepted
       trace and ends in a well-typed diagram in which no cap leg runs straight into the opposite
-      leg of a matching cup; `snake_removal_is_normalize_after_loop` — whatever `snakeRemoval`
-      raises is raised by the final `normalize`;
+      leg of a matching cup; `snake_removal_is_normalize_after_loop`, `snake_removal_never_raises` —
+      `snakeRemoval` equals the final `normalize` run on the loop's result, and that raises
+      nothing either (a redex can always be interchanged): no exception for any fuel;
     * bookkeeping without any hypothesis: `move_obstructions_spec`, `remove_pair_length`,
       `snake_loop_result`.
   NOT proved (kept as a `Prop` no theorem claims): `snake_removal_terminates` — termination of the
@@ -140,6 +141,15 @@ theorem snake_removal_is_normalize_after_loop (d : Diagram) (left : Bool) (fuel 
       d1.WF ∧ d.snakeRemoval left fuel = normalizeTrace left fuel d1 acc := by
   obtain ⟨d1, acc, h, hc, hla, hn, w, _⟩ := snake_loop_total left d hd hv
   exact ⟨d1, acc, hc, hla, hn, w, by simp [Diagram.snakeRemoval, h]⟩
+
+/-- `rigid.Diagram.normalize()` raises nothing on a well-typed input, for any number of passes
+    allowed to the final loop (when they run out the model returns `fin = false`, never an error).
+    `NotImplementedError` comes from `normal_form`'s revisit cache, not from the generator. -/
+theorem snake_removal_never_raises (d : Diagram) (left : Bool) (fuel : Nat) (hd : d.WF)
+    (hv : d.boxesValid) : ∃ steps fin, d.snakeRemoval left fuel = .ok (steps, fin) := by
+  obtain ⟨d1, acc, _, _, _, w, h⟩ := snake_removal_is_normalize_after_loop d left fuel hd hv
+  obtain ⟨⟨steps, fin⟩, hr⟩ := normalizeTrace_total (left := left) fuel (acc := acc) w
+  exact ⟨steps, fin, by rw [h, hr]⟩
 
 /-! Bookkeeping that needs no invariant. -/
 
